@@ -277,6 +277,11 @@ fn check_writer(initial: &FaceSpec, items: &[WItem], cuts: &[u16]) -> Outcome {
 impl Property for C06 {
     type Case = Case;
 
+    fn fuzz(&self) -> Option<FuzzSpec> {
+        // entropy-driven target: libFuzzer's bytes replace the generator's random numbers
+        Some(FuzzSpec { target: "gen", jobs: 8, runs: 500_000, max_len: 2048, seeds: 64 })
+    }
+
     fn id(&self) -> &'static str {
         "C06"
     }
